@@ -1,3 +1,4 @@
+import Photon.Model.SemLog
 import Photon.Properties.C01
 /-!
 # C02 — Semaphore: tokens conserved, no lost wake-up
@@ -187,3 +188,50 @@ example : (run {} [.semInit 9 0 true, .create 1, .create 2, .create 3,
     .quiescent]).isOk = true := by decide
 
 end Photon.Sync
+
+/-! ### several vCPUs: the token ledger of real concurrent runs (`Model/SemLog.lean`, harness `mv_sync`) -/
+namespace Photon.SemLog
+
+theorem step_ok (s s' : St) (e : Ev) (h : step s e = .ok s') : pre s e = none ∧ s' = eff s e := by
+  unfold step at h
+  cases hp : pre s e with
+  | some m => rw [hp] at h; exact absurd h (by simp)
+  | none => rw [hp] at h; exact ⟨rfl, by injection h with h; exact h.symm⟩
+
+theorem run_inv (evs : List Ev) : ∀ (s s' : St), s.taken ≤ s.signalled → run s evs = .ok s' → s'.taken ≤ s'.signalled := by
+  induction evs with
+  | nil => intro s s' hi h; simp only [run] at h; injection h with h; subst h; exact hi
+  | cons e es ih =>
+    intro s s' hi h
+    simp only [run] at h
+    cases hs : step s e with
+    | error m => rw [hs] at h; exact absurd h (by simp)
+    | ok s1 =>
+      rw [hs] at h
+      obtain ⟨hp, he⟩ := step_ok s s1 e hs
+      apply ih s1 s' _ h
+      rw [he]
+      cases e with
+      | signal n => simp only [eff]; omega
+      | late => exact hi
+      | got n =>
+        simp only [pre] at hp
+        simp only [eff]
+        by_cases c : s.taken + n ≤ s.signalled
+        · exact c
+        · rw [if_neg c] at hp; exact absurd hp (by simp)
+
+/-- **C02 (several vCPUs), conservation.** In every accepted history of a concurrent run the tokens obtained by successful waits
+    never exceed the tokens signalled before (no token is created), whatever vCPUs and OS threads signal and wait. -/
+theorem C02_mv_conservation (evs : List Ev) (s : St) (h : run {} evs = .ok s) : s.taken ≤ s.signalled :=
+  run_inv evs {} s (Nat.le_refl _) h
+
+/-- **C02, safe to destroy after wait.** No accepted history contains a write to a semaphore that its waiter destroyed after
+    `wait()` returned. -/
+theorem C02_mv_no_late_write (s s' : St) : step s .late ≠ .ok s' := by
+  intro h; obtain ⟨hp, _⟩ := step_ok s s' _ h; simp [pre] at hp
+
+example : (run {} [.signal 2, .got 1, .signal 1, .got 2]).isOk = true := by decide
+example : (run {} [.signal 1, .got 2]).isOk = false := by decide
+
+end Photon.SemLog
